@@ -196,6 +196,9 @@ func (c04) Enumerate(tier string, seed int64, yield func(string, core.Case) bool
 		}
 	}
 	small := withWeights(mconAlphabet(2, 0), []int{0, 1, 2})
+	if thorough {
+		small = withWeights(mconAlphabet(3, 0), []int{0, 1, 2})
+	}
 	for _, a := range small {
 		for _, b := range small {
 			for _, c := range small {
